@@ -56,7 +56,7 @@ ASSUMPTIONS = [
     'canonical values = pristine interpreter, each lazy group first read through an element in registration order',
     'quick tier digests the x-ray group for a fixed subset of 17 elements (all elements in thorough)',
     'a public difference that the public-only projection of the history also shows is attributed to C09, not C10 (counted, not reported)',
-    'fasta strings ("aa:...") are not formula-grammar strings and are not used for clause (e)',
+    'fasta strings ("aa:...", "dna:...") are included in clause (e): formula(s, table=T) dispatches them to fasta.Sequence',
     "clause (b'): derived values of a private table are checked against the documented equations of density.py "
     "evaluated on the table's own mass and density (relative 1e-12); this reads isolation in both directions",
 ]
